@@ -47,7 +47,7 @@ func c06incDir(k, kind int) string {
 	case 1:
 		return fmt.Sprintf("proj/inc%d", k)
 	case 2:
-		return fmt.Sprintf("sib%d", k)
+		return fmt.Sprintf("proj-sib%d", k) // a sibling whose name starts with the project directory's name
 	}
 	return "proj"
 }
